@@ -176,3 +176,12 @@ def dump(an):
     buf = io.StringIO()
     an.dump_to_file(buf)
     return buf.getvalue()
+
+
+def scattered(seed, L, n):
+    """Deterministic stream of n scattered L-bit values (one long request history)."""
+    x = 12345 + seed
+    mask = (1 << L) - 1
+    for _ in range(n):
+        x = (x * 6364136223846793005 + 1442695040888963407) & ((1 << 128) - 1)
+        yield (x >> 7) & mask
